@@ -6,7 +6,7 @@ cd /repo && git diff --quiet || { echo "/repo is not clean"; exit 2; }
 git -C /repo apply "$PATCH" || exit 2
 for ID in "$@"; do
   START=$(date +%s)
-  OUT=$(cd /verif && ./check "$ID" --tier quick 2>&1); CODE=$?
+  OUT=$(cd /verif && timeout 1500 ./check "$ID" --tier quick 2>&1); CODE=$?; pkill -x nsverif 2>/dev/null
   echo "[$ID] exit=$CODE in $(( $(date +%s) - START ))s :: $(echo "$OUT" | grep -E "^--- " | head -3 | cut -c1-160 | tr '\n' ' ')"
 done
 git -C /repo checkout -- .
